@@ -9,8 +9,10 @@ META = dict(
            "backing file name that ends the area), backing file name of symbolic offset/length, virtual size; snapshot table "
            "with <= 2 entries of symbolic extra-data/id/name lengths at an 8-byte aligned symbolic offset. Strings are compared as "
            "(codec, file range) pairs, so any length/character set holds by construction. Sequence-number selection of the "
-           "Hyper-V header is checked in C12; virtual sizes of every format are checked in C01-C06 (size obligation).",
-    outside=["VHDX region/metadata tables and parent locator (GUID-keyed dictionaries: not encoded)", "VMDK descriptor text -> "
+           "Hyper-V header is checked in C12; VHDX container (real VHDX.__init__/RegionTable/MetadataTable on a symbolic file, <= 2 "
+           "region entries, <= 4 metadata items in any of the bounded orders, item data at symbolic offsets): the active header "
+           "is the one with the larger sequence number and size/block_size/sector_size/has_parent equal the stored items; virtual sizes of every format are checked in C01-C06 (size obligation).",
+    outside=["VHDX parent locator strings; VHDX containers beyond the bounds above", "VMDK descriptor text -> "
              "dict and Parallels DiskDescriptor.xml -> dataclasses (string splitting / expat: not encodable, same reasons as C18)",
              "character decoding itself (bytes.decode is an opaque (codec, range) pair)"],
     assumptions=["dissect.cstruct layouts as learned from the real parser each run"],
@@ -18,15 +20,22 @@ META = dict(
 )
 
 
+SPLIT_DEPTH = 10
+
+
 def tasks(tier):
     out = [("ext", dict(n_ext=2, backing=False)), ("ext", dict(n_ext=2, backing=True)), ("ext", dict(n_ext=1, version=2)),
-           ("snap", dict(n=2))]
+           ("snap", dict(n=2)), ("vhdx", dict(n_regions=2, n_items=4, regions_canonical=True))]
     if tier == "thorough":
         out += [("ext", dict(n_ext=3, backing=True)), ("ext", dict(n_ext=3, backing=False))]
     return out
 
 
 def run(hname, cfg, tier, seed):
+    if hname == "vhdx":
+        from harness import vhdxinit
+
+        return vhdxinit.container_task("C14", cfg, tier, seed)
     if hname == "ext":
         return meta.qcow2_extensions_task("C14", cfg, tier, seed)
     return meta.qcow2_snapshots_task("C14", cfg, tier, seed)
